@@ -25,6 +25,10 @@ func selftestRewrites() error {
 			tc.ZExt(n8, w), tc.Ite(b, tc.Const(w, 5), tc.Const(w, 9)), tc.mk(OpXor, BV(w), 0, "", x, y), tc.mk(OpAdd, BV(w), 0, "", x, tc.Const(w, 7)),
 			tc.mk(OpLShr, BV(w), 0, "", x, tc.Const(w, 3)), tc.mk(OpAnd, BV(w), 0, "", x, tc.Const(w, 0x3f)),
 		}
+		if w == 16 {
+			shapes = append(shapes, tc.mk(OpZExt, BV(16), 0, "", tc.Extract(x, 7, 0)),
+				tc.mk(OpShl, BV(16), 0, "", tc.mk(OpZExt, BV(16), 0, "", tc.Extract(x, 15, 8)), tc.Const(16, 8)))
+		}
 		binops := []Op{OpAdd, OpSub, OpMul, OpUDiv, OpURem, OpSDiv, OpSRem, OpAnd, OpOr, OpXor, OpShl, OpLShr, OpAShr}
 		cmps := []Op{OpEq, OpUlt, OpUle, OpSlt, OpSle}
 		for _, a := range shapes {
